@@ -56,6 +56,16 @@ def check_one(geo, bud, cfgs, plain=False, with_batches=False, states=None):
     if items and not (items[-1][1] if items[-1][0] == 'M' else items[-1][2]):
         return "ends_inside_batch", dict(last=items[-1]), len(impl), None
     if with_batches:
+        # the same sampler object iterated a second time must produce the same stream (no state leaks between runs)
+        try:
+            del log[:]
+            impl2, overrun2 = ic.impl_events(s, log, horizon)
+        except Exception as e:
+            return f"second_iteration_exception:{type(e).__name__}", repr(e), len(impl), None
+        if impl2 != impl:
+            k = ic.first_diff(impl, impl2)
+            return "second_iteration_of_same_object_differs", dict(first_diff_at=k, first=impl[max(0, k - 2):k + 3],
+                                                                   second=impl2[max(0, k - 2):k + 3]), len(impl), None
         try:
             s2, log2 = ic.build(geo, bud, cfgs, plain=plain)
             got = [list(b) for b in s2.batch_sampler]
